@@ -23,6 +23,7 @@ UNITS = {
     "u33_delta_nth": {"verus": "specs/u33_delta_nth.vt.rs"},
     "u34_delta_agg": {"verus": "specs/u34_delta_agg.vt.rs"},
     "u35_rle_track": {"verus": "specs/u35_rle_track.vt.rs"},
+    "u36_bool_load": {"verus": "specs/u36_bool_load.vt.rs"},
     "u22_loadnext": {"verus": "specs/u22_loadnext.vt.rs"},
     "u23_exid_order": {"verus": "specs/u23_exid_order.vt.rs"},
     "u24_changeparse": {"verus": "specs/u24_changeparse.vt.rs"},
@@ -270,7 +271,7 @@ PROPERTIES.update({
     "C15": {
         "level": "proof",
         "verus": [("u02_parse", "*"), ("u01_bloom", ["parse", "get_probes", "contains_hash", "add_hash", "set_bit"]), ("u04_ids", ["exid_to_opid", "op_cursor_to_opid", "new"]),
-                  ("u04c_codecs", ["try_from", "parse_0"]), ("u06v_hexane_str", "*"), ("u15_colids", ["try_next", "try_load", "new", "root", "from"]), ("u19_import", "*"), ("u28_valuemeta", "*"), ("u29_hexane_prefix", "*"), ("u30_legacy_rle", "*"), ("u32_decodable_alloc", "*"), ("u34_delta_agg", "*"), ("u35_rle_track", "*"), ("u24_changeparse", ["verify_ops", "parse_following_header", "actor_id"])],
+                  ("u04c_codecs", ["try_from", "parse_0"]), ("u06v_hexane_str", "*"), ("u15_colids", ["try_next", "try_load", "new", "root", "from"]), ("u19_import", "*"), ("u28_valuemeta", "*"), ("u29_hexane_prefix", "*"), ("u30_legacy_rle", "*"), ("u32_decodable_alloc", "*"), ("u34_delta_agg", "*"), ("u35_rle_track", "*"), ("u36_bool_load", "*"), ("u24_changeparse", ["verify_ops", "parse_following_header", "actor_id"])],
         "kani": ["u04_changehash_try_from_slice", "u15_try_load_total", "u15_raw_read_bytes", "u17_from_raw_string_valid", "u02k_length_prefixed_total", "u02k_apply_n_total", "u06_codec_reads_agree", "u01_parse_wf_quick", "u01_parse_wf_thorough", "u01_query_total", "u03_header_parse_q", "u03_header_parse_t", "u03_chunktype_codes",
                  "u04_exid_try_from_total_q", "u04_exid_try_from_total_t", "u04_cursor_from_str_total_q",
                  "u05_flags_parse_bytes",
@@ -328,7 +329,7 @@ PROPERTIES.update({
     },
     "C35": {
         "level": "proof",
-        "verus": [("u06v_hexane_str", "*"), ("u29_hexane_prefix", "*"), ("u31_hexane_bool", "*"), ("u33_delta_nth", "*"), ("u34_delta_agg", "*"), ("u35_rle_track", "*")],
+        "verus": [("u06v_hexane_str", "*"), ("u29_hexane_prefix", "*"), ("u31_hexane_bool", "*"), ("u33_delta_nth", "*"), ("u34_delta_agg", "*"), ("u35_rle_track", "*"), ("u36_bool_load", "*")],
         "kani": ["u06_codec_reads_agree", "u06_leb_unsigned_roundtrip", "u06_leb_signed_roundtrip", "u06_int_unpack_total", "u06_narrow_unpack_total", "u06_string_unpack_q", "u06_string_unpack_t",
                  "u06_string_unpack_huge_len", "u06_rle_segment_total_u64", "u06_rle_segment_total_i64", "u06_rle_segment_utf8"],
         "not_under_contract": ["Column::load / load_with / save / save_to", "slabs, B-tree index, splice, RLE loader (rle/load.rs), bool and delta encodings, encoder.rs", "value pack() into Vec"],
